@@ -133,6 +133,29 @@ def option_sweep(rebound, gen, rng):
     return out
 
 
+def continuation_histories(ctx, rebound, gen, rng):
+    """The histories that C05 uses for 'restored continues bitwise' beyond the generator's own recipes; tools/c17.py uses the
+    SAME list for 'copy evolves bitwise identically' (every fixed continuation finding is recorded under both properties)."""
+    sweep = option_sweep(rebound, gen, rng)
+    # thorough: the whole sweep; quick: a deterministic 1-in-23 sample of it (keeps the code path alive)
+    full_sweep = sweep
+    sweep = sweep if ctx.thorough else sweep[ctx.seed % 23::23]
+    if not ctx.thorough:   # recipes that exposed defects in the thorough tier stay in the quick tier
+        sweep = sweep + [r for r in full_sweep if r["integrator"] == "bs" and r.get("collision_resolve") == "merge" and r not in sweep]
+    # fixed regression recipes (exact reproducers of findings made by the thorough tier)
+    P = [(1.0, 0.0, 0.0, 0.0, 0.0, 0.0, 0.0, 0.001),
+         (0.000606748223857011, 1.0, 0.0, 0.0, 0.28351668826104803, 1.0, 0.0, 0.005326149218456729),
+         (0.00058431982445882, 1.0269995810945907, 0.0001986509501140561, 0.0, -0.28351668826104803, 1.0, 0.0, 0.005326149218456729),
+         (0.0004965384415883654, -1.7, 0.1, 0.02, 0.0, -0.7669649888473704, 0.0, 0.002)]
+    for k in (4, 5, 6):
+        fx = gen._base(rng, "bs", "fixed/merge-in-step-5/k=%d" % k,
+                       particles=[dict(zip(("m", "x", "y", "z", "vx", "vy", "vz", "r"), q)) for q in P], dt=0.01)
+        fx["sim"]["rand_seed"] = 1877887275
+        fx.update(collision="direct", collision_resolve="merge", k=k)
+        sweep.append(fx)
+    return sweep
+
+
 def coq_exempt():
     """the hand-audited exempt list of coq/C05/Exempt.v (single source of truth for 'legitimately not persisted')"""
     s = vlib.strip_comments(open(os.path.join(vlib.COQ, "C05", "Exempt.v")).read())
@@ -173,23 +196,7 @@ def run(ctx):
     nrec = ctx.scale(500, 3000)
     recipes = gen.recipes(rng, nrec, thorough=ctx.thorough)
     n_base = len(recipes)
-    sweep = option_sweep(rebound, gen, rng)
-    # thorough: the whole sweep; quick: a deterministic 1-in-23 sample of it (keeps the code path alive)
-    full_sweep = sweep
-    sweep = sweep if ctx.thorough else sweep[ctx.seed % 23::23]
-    if not ctx.thorough:   # recipes that exposed defects in the thorough tier stay in the quick tier
-        sweep = sweep + [r for r in full_sweep if r["integrator"] == "bs" and r.get("collision_resolve") == "merge" and r not in sweep]
-    # fixed regression recipes (exact reproducers of findings made by the thorough tier)
-    P = [(1.0, 0.0, 0.0, 0.0, 0.0, 0.0, 0.0, 0.001),
-         (0.000606748223857011, 1.0, 0.0, 0.0, 0.28351668826104803, 1.0, 0.0, 0.005326149218456729),
-         (0.00058431982445882, 1.0269995810945907, 0.0001986509501140561, 0.0, -0.28351668826104803, 1.0, 0.0, 0.005326149218456729),
-         (0.0004965384415883654, -1.7, 0.1, 0.02, 0.0, -0.7669649888473704, 0.0, 0.002)]
-    for k in (4, 5, 6):
-        fx = gen._base(rng, "bs", "fixed/merge-in-step-5/k=%d" % k,
-                       particles=[dict(zip(("m", "x", "y", "z", "vx", "vy", "vz", "r"), q)) for q in P], dt=0.01)
-        fx["sim"]["rand_seed"] = 1877887275
-        fx.update(collision="direct", collision_resolve="merge", k=k)
-        sweep.append(fx)
+    sweep = continuation_histories(ctx, rebound, gen, rng)
     ctx.extra["option_sweep_recipes"] = len(sweep)
     ncorr = ctx.scale(84, 400)
     b0 = gen.save_bytes(rebound, rebound.Simulation())
